@@ -3,8 +3,8 @@
 Generator : a LOGGING ONE-SHOT ITERATOR (``__iter__`` returns self, ``__next__`` records the index it hands out) over
             0-8 objects of mixed types supplied as let(T, domain=it) or T(From(it)); a condition from the C01 grammar
             (the empty condition is its own class); then a history of partial(k) / full evaluations.
-Oracle    : (a) building the query and calling evaluate() pull nothing; (b) first evaluation: the k-th object yielded is
-            the k-th qualifying object and at that moment the log is exactly [0..its index]; (c) over the whole history
+Oracle    : (a) building the query and calling evaluate() pull nothing; (b) in EVERY evaluation the k-th object yielded is
+            the k-th qualifying object, and in the first one the log is at that moment exactly [0..its index]; (c) over the whole history
             the log is always the prefix [0..m] (no element pulled twice); (d) in later evaluations, when the object
             with index i is yielded, len(log) == max(len(log) before this evaluation, i+1).
 """
@@ -130,19 +130,22 @@ def check(case) -> Outcome:
                                   f"pulled up to {need} elements (had {before} before this evaluation) but the log is "
                                   f"{it.log}; qualifying indices {q_idx}", classes=classes, features=feats,
                             nontrivial=nontrivial)
-            if first and got != q_idx[:len(got)]:
-                return fail("wrong_kth_result", f"step {step} {op}: first evaluation yielded elements {got}, the qualifying "
-                                                f"elements are {q_idx}", classes=classes, features=feats)
+            if got != q_idx[:len(got)]:
+                return fail("wrong_kth_result", f"step {step} {op}: evaluation #{step + 1} yielded elements {got}, the "
+                                                f"qualifying elements are {q_idx}", classes=classes, features=feats)
         if want_n is not None:
+            if len(got) < want_n and got != q_idx:
+                return fail("wrong_full_result", f"step {step} {op}: the evaluation ended after {got}, qualifying {q_idx} "
+                                                 f"(history {case['ops'][:step]})", classes=classes, features=feats)
             gen.close()
             if len(got) == want_n and len(got) < len(q_idx) and skipped_before:
                 nontrivial = True
             if "partial" not in classes:
                 classes.append("partial")
         else:
-            if first and got != q_idx:
-                return fail("wrong_full_result", f"step {step}: first full evaluation yielded {got}, qualifying {q_idx}",
-                            classes=classes, features=feats)
+            if got != q_idx:
+                return fail("wrong_full_result", f"step {step}: full evaluation #{step + 1} yielded {got}, qualifying "
+                                                 f"{q_idx} (history {case['ops'][:step]})", classes=classes, features=feats)
         if it.log != list(range(len(it.log))):
             return fail("element_pulled_twice_or_out_of_order", f"after step {step} {op}: pull log {it.log}",
                         classes=classes, features=feats)
